@@ -90,6 +90,11 @@ class Builder:
             return so.LogicalObservableOperation(q[0], last_acquisition_index=a[0], main_target=a[1], **kw)
         raise ValueError(cls)
 
+    def flush_reps(self):
+        """write the registry-provided repetition counts collected while building"""
+        for key, reps_value in self.rep_pending:
+            self.rep_registry.set_registry_at(key, reps_value)
+
     def build(self, prog, reps=1, top=True):
         # repetition counts are given as fixed numbers or through a (shared) repetition registry: every third nested block,
         # chosen by a deterministic function of the input, uses the registry
@@ -121,8 +126,7 @@ class Builder:
             self.leafinfo.append({'cls': type(op).__name__, 'ch': [[ci.id, ci.channel.name] for ci in op.channel_identifiers]})
             entries.append(circuit.add(op))
         if top:
-            for key, reps_value in self.rep_pending:
-                self.rep_registry.set_registry_at(key, reps_value)
+            self.flush_reps()
             self.top_entries = {id(e): k for k, e in enumerate(entries)}
             self.top_list = entries
         return circuit
